@@ -55,9 +55,15 @@ for sid in sorted(SEEDS):
         print(sid, 'DOES NOT APPLY', out); shutil.rmtree(T); continue
     caught, broken, details = [], [], {}
     env = dict(os.environ, ZCSA_REPO=T, ZCSA_OUTDIR=T + '/_out')
-    for p in PROPS:
-        o = subprocess.run(['python3', '-m', 'zcsa', 'check', p, '--tier', 'quick'], cwd='/verif', env=env,
-                           stdout=subprocess.PIPE, stderr=subprocess.STDOUT).stdout.decode()
+    def run1(p):
+        return p, subprocess.run(['python3', '-m', 'zcsa', 'check', p, '--tier', 'quick'], cwd='/verif', env=env,
+                                 stdout=subprocess.PIPE, stderr=subprocess.STDOUT).stdout.decode()
+    # first check alone (fills the parse cache for the copy), the rest in parallel
+    outs = [run1(PROPS[0])]
+    from concurrent.futures import ThreadPoolExecutor
+    with ThreadPoolExecutor(max_workers=10) as ex:
+        outs += list(ex.map(run1, PROPS[1:]))
+    for p, o in outs:
         if 'VIOLATION property=' in o:
             caught.append(p)
             details[p] = [l[:200].replace(T + '/', '') for l in o.splitlines() if l.startswith('FINDING')][:4]
